@@ -175,3 +175,15 @@ Proof.
   - destruct (index_empty_sites enc h nm d) as [k [Hk [H _]]]. eauto.
   - apply remove_sites.
 Qed.
+
+(** The model's path scheme is the source's: index file name, suffixes of the temporary index and of the message
+    files, and the prefix lengths of the two directory levels — the same for by-name access (Store.mbox) and for the
+    walk (Store.mboxFromHash). *)
+From IV Require Import Gen.FilePaths.
+Theorem paths_pinned : forall (h id : str),
+  idx_name = src_index_name /\ tmp_name = (src_index_name ++ src_tmp_suffix)%list /\ raw_ext = src_raw_suffix /\
+  mbdir h = [firstn src_level1_mbox h; firstn src_level2_mbox h; h] /\
+  mbdir h = [firstn src_level1_walk h; firstn src_level2_walk h; h] /\
+  idx h = (mbdir h ++ [src_index_name])%list /\ tmp h = (mbdir h ++ [(src_index_name ++ src_tmp_suffix)%list])%list /\
+  raw h id = (mbdir h ++ [(id ++ src_raw_suffix)%list])%list.
+Proof. intros. repeat split; reflexivity. Qed.
